@@ -58,7 +58,7 @@ Proof. exact get_int_lit. Qed.
 (* What the code does with the digit 8 after "0o": it is accepted as a digit of value 8 ("0o18" = 16). *)
 Theorem C10_octal_digit_8 : forall (ds r : list Z) (def : Z),
   ds <> [] -> forallb (in_range 0 8) ds = true -> nw r ->
-  get_int def (48 :: 111 :: map (fun d => 48 + d) ds ++ r) = (value_in 8 0 ds, r).
+  get_int def (48 :: 111 :: map (fun d => 48 + d) ds ++ r) = (Z.min (value_in 8 0 ds) numeral_cap, r).
 Proof. exact get_int_octal_8. Qed.
 
 (* MID(s,i,n) = the n characters from the 1-based position i, clamped to the string, for any text
